@@ -54,6 +54,32 @@ def role_ctx(c):
     return None
 
 
+def role_ctx_for(f):
+    """role_ctx, plus the form `node.num == deviator` where `deviator` is a PlayerNum chosen by the const parameter
+    (`if PLAYER_ONE { One } else { Two }`, possibly returned by a spliced helper): equal means deviating"""
+    def want(c):
+        r = role_ctx(c)
+        if r is not None:
+            return r
+        if c['kind'] == 'Eq' and c.get('b') is not None and c.get('truth') is not None:
+            for x, y in ((c['a'], c['b']), (c['b'], c['a'])):
+                xs, ys = strip_refs(x), strip_refs(y)
+                if not (xs[0] == 'field' and xs[2] == 'num') or ys[0] != 'var':
+                    continue
+                sel = {}
+                for bi, cs, v in q.multi_def_values(f, ys[1]):
+                    v = strip_refs(v)
+                    first = [cc for cc in cs if cc['kind'] == 'bool' and cc['a'][0] == 'cparam']
+                    if v[0] == 'agg' and 'PlayerNum::' in v[1] and first:
+                        sel[first[-1]['truth']] = v[1].split('PlayerNum::')[-1]
+                if sel == {True: 'One', False: 'Two'}:
+                    return ('role', c['truth'])
+                if sel == {True: 'Two', False: 'One'}:
+                    return ('role', not c['truth'])
+        return None
+    return want
+
+
 def roles_of(cxs):
     out = set()
     for c in cxs:
@@ -260,6 +286,11 @@ def run(ctx):
                             detail = 'slot %d = PosPart(optimal_deviations::<%s>(player_info%s, strat_info%s) %+g*expected)' % (k, inst, sorted(q.tags(brc[2][2])), sorted(q.tags(brc[2][3])), ex[0][1])
                 if k is None:
                     k = len(sign_in_slot) if len(sign_in_slot) < 2 else 1
+                if not good and lib.one('regret::optimal_deviations') is None:
+                    # the best-response search is no longer a function of that name (moved into a method of a new type,
+                    # spliced in here): the slot's form cannot be matched against it
+                    ctx.anchor_lost(rule, 'regret(): best-response term of slot %d' % k, 'optimal_deviations is gone; slot = %s' % (detail or '')[:80])
+                    continue
                 ctx.verdict(good, rule, '%s:slot-%d' % (rule, k),
                             'regret of player %d is max(best response value of that player (own infoset table, *other* player\'s strategy) %s expected, 0)' % (k + 1, '-' if k == 0 else '+'), f.where(0), detail,
                             breaks='a player\'s regret is computed against the wrong strategy / with the wrong sign, or can be negative')
@@ -376,7 +407,7 @@ def run(ctx):
             elif not has_role:
                 role = 'fixed'
             else:
-                cxs = f.contexts(bi, role_ctx)
+                cxs = f.contexts(bi, role_ctx_for(f))
                 roles = roles_of(cxs)
                 role = 'deviating' if roles == {True} else 'fixed' if roles == {False} else 'mixed'
             rule = 'C01.reach'
@@ -407,7 +438,7 @@ def run(ctx):
         if not reg:
             ctx.anchor_lost(rule, 'optimal_deviations: registration of infoset nodes')
         for bi, t, e in reg:
-            cxs = f.contexts(bi, role_ctx)
+            cxs = f.contexts(bi, role_ctx_for(f))
             roles = roles_of(cxs)
             parts = item_parts(lib, e[2][1])
             kinds, _ = classify_weight(f, parts[1], pop_item(f)) if parts is not None else (None, None)
@@ -518,7 +549,7 @@ def run(ctx):
                                 atoms = list(p)[0]
                                 mu = [a for a in atoms if a[0] == 'val' and strip_refs(a[1])[0] == 'field' and strip_refs(a[1])[2] == dev_fields(lib)['value']]
                                 own = mu and q.find_sub(mu[0][1], lambda s: s[0] == 'index' and strip_refs(s[2])[0] == 'field' and strip_refs(s[2])[2] == 'infoset' and q.find_sub(s[2], lambda z: same_call(z, popped)) is not None) is not None
-                                cxs = g.contexts(d[1], role_ctx)
+                                cxs = g.contexts(d[1], role_ctx_for(g))
                                 roles = roles_of(cxs)
                                 ok = bool(mu) and bool(own) and len(atoms) == 2 and roles == {True}
         ctx.verdict(ok, 'C01.infoset-value', 'C01.infoset-value:used-at-own-nodes', 'at a node of the deviating player the search adds (+1) * (value of that node\'s own infoset) * reach and stops', g.where(0), 'recognised: %s' % ok)
